@@ -72,10 +72,10 @@ func expandC18(_ *testing.T, seed uint64, tier string) []*core.Plan {
 		for i := 0; i < n; i++ {
 			it := core.Item{K: "op", P: 1 + r.Intn(actors)}
 			it.S = []string{"save", "lookup", "delete", "all", "reset", "next"}[r.Weighted([]int{8, 6, 4, 3, 1, 2})]
-			it.A = r.Intn(2)                   // direction
+			it.A = r.Intn(2)                       // direction
 			it.B = storeIDs[r.Intn(len(storeIDs))] // id
-			it.C = r.Intn(7)                   // packet type selector for save
-			it.D = 1 + r.Intn(200)             // tag making the saved packet unique
+			it.C = r.Intn(7)                       // packet type selector for save
+			it.D = 1 + r.Intn(200)                 // tag making the saved packet unique
 			if mode == 2 && it.S == "next" {
 				it.S = "lookup"
 			}
